@@ -48,6 +48,11 @@ pub fn eval(op: &str, a: &[&str]) -> Option<String> {
                 (None, _) => "(err)".into(),
             }
         }
+        "c03.encode" => {
+            // the bytes of the typed encoder, compared byte for byte with the model's mirror of TypeSerialize + M
+            let (env, ts, vs) = (env_from_sx(a[0]), tys_from(a[1]), vals_from(a[2]));
+            match encode_typed(&env, &ts, &vs) { Some(b) => sx::hex(&b), None => "(err)".into() }
+        }
         "c03.wf_untyped" => {
             let vs = vals_from(a[0]);
             match (encode_untyped(&vs), a[1]) {
@@ -235,6 +240,7 @@ pub fn generate(prop: &str, thorough: bool, r: &mut Rng, em: &mut Emit) {
             "C03" => {
                 let b = encode_typed(&env, &ts, &vs);
                 em.case_nt("c03.wf", &[es.clone(), tys_sx(&ts), vlist(&vs), b.map(|b| sx::hex(&b)).unwrap_or("err".into())], big);
+                em.case_nt("m.c03.encode", &[es.clone(), tys_sx(&ts), vlist(&vs)], big);
                 if vs.iter().all(|v| uniform(&v.to_idl())) {
                     let b = encode_untyped(&vs);
                     em.case_nt("c03.wf_untyped", &[vlist(&vs), b.map(|b| sx::hex(&b)).unwrap_or("err".into())], big);
